@@ -151,9 +151,9 @@ def run_gen(job, ctx):
     part = job['part']
     if part == 'duration':
         ns = list(range(1, 60)) + [r.randrange(60, 5001) for _ in range(40 if ctx.tier == 'quick' else 1200)] + [100, 1000, 5000]
-        for N in ns:
+        for N, form in [(N, f) for N in ns for f in spellings(N, 'en-us')]:
             for u, (code, sec) in U.items():
-                q = '%d %s%s' % (N, u, 's' if N != 1 else '')
+                q = '%s %s%s' % (form, u, 's' if N != 1 else '')
                 tx = 'P' + ('T' if code[0] == 'T' else '') + str(N) + code[-1]
                 want = {'timex': tx, 'value': str(N * sec)}
 
@@ -228,6 +228,17 @@ CULT_UNITS = {
 CULT_UNITS['es-mx'] = CULT_UNITS['es-es']
 
 
+GROUP_MARK = {'es-es': '.', 'de-de': '.', 'it-it': '.', 'nl-nl': '.', 'pt-br': '.', 'fr-fr': '.', 'zh-cn': ',', 'en-us': ','}
+
+
+def spellings(N, cu):
+    """the ways N is written with digits in the culture: plain, and from 1000 on with the culture's grouping mark"""
+    out = [str(N)]
+    if N >= 1000 and cu in GROUP_MARK:
+        out.append('{:,}'.format(N).replace(',', GROUP_MARK[cu]))
+    return out
+
+
 def run_durations_cultures(job, ctx):
     from rtmon import lib
     cu = job['culture']
@@ -235,8 +246,9 @@ def run_durations_cultures(job, ctx):
     r = ctx.rng('c10:dur:' + cu)
     ns = [1, 2, 3, 7, 15, 30, 59, 100, 365, 1000, 4999] + [r.randrange(2, 5001) for _ in range(8 if ctx.tier == 'quick' else 200)]
     for sg, pl, code, sec in CULT_UNITS[cu]:
-        for N in ns:
-            q = ('%d%s' % (N, pl)) if cu == 'zh-cn' else '%d %s' % (N, sg if N == 1 else pl)
+      for N in ns:
+        for form in spellings(N, cu):
+            q = ('%s%s' % (form, pl)) if cu == 'zh-cn' else '%s %s' % (form, sg if N == 1 else pl)
             tx = 'P' + ('T' if code[0] == 'T' else '') + str(N) + code[-1]
             want = {'timex': tx, 'value': str(N * sec)}
             where = {'model': 'DateTimeModel', 'culture': cu, 'cls': 'duration|' + sg, 'digits': '>=3' if N >= 100 else '<3'}
